@@ -12,6 +12,8 @@ from ..report import Ctx
 #: stub carries no "Same as <new>" sentence; confirmed by reading.
 RENAMES = {
     'segment_parameter': 'segmented_beta',  # segmentation.py: same signature, docstring "use segmented_beta"
+    'cnl_avail': 'cnl',  # models/cnl.py: the availability argument became part of cnl; stub "Same as cnl"
+    'logcnl_avail': 'logcnl',  # models/cnl.py: stub "Same as logcnl"
 }
 
 #: obsolete keyword -> new keyword pairs that are genuine renames
